@@ -139,6 +139,7 @@ type Obligation struct {
 }
 
 type FnVC struct {
+	gaOrder []string // package-level variables whose address was taken in this function
 	slice *sliceIndex
 	stores map[string]storeInfo
 	nMapUpdates int
@@ -684,8 +685,16 @@ func (vc *FnVC) globalComp(g *ssa.Global) (comp, sort string) {
 			constComps[comp] = true
 			vc.nonNilGlobals = append(vc.nonNilGlobals, comp)
 			vc.usedNonNil[g] = true
-			vc.emit(not(eq(comp+"!e0", vc.enc.zeroOfSort(sort, t))))
 			vc.enc.declConst(comp+"!e0", sort)
+			if _, isBasic := t.Underlying().(*types.Basic); isBasic {
+				// a scalar package constant (assigned once, in the initialiser): its value, when the
+				// initialiser stores a compile-time constant
+				if c := vc.prog.globalConstInit(g); c != nil {
+					vc.emit(eq(comp+"!e0", vc.enc.constTerm(c.Value, t)))
+				}
+			} else {
+				vc.emit(not(eq(comp+"!e0", vc.enc.zeroOfSort(sort, t))))
+			}
 			if tn, ok := vc.prog.cs.GlobalTypes[g.Pkg.Pkg.Path()+"::"+g.Name()]; ok && sort == sIface {
 				te, err := parseTypeString(tn)
 				if err != nil {
